@@ -125,18 +125,22 @@ def _exact_cases(tier):
                     else:
                         combos = list(itertools.product(DTS, (1, 2, 3)))
                     for dt, steps in combos:
-                        yield ['exact', name, L, qD, integ, [dt.real, dt.imag], steps]
+                        yield ['exact', name, L, qD, integ, [dt.real, dt.imag], steps, 'complex']
+                    for dt, steps in ([(DTS[0], 1), (DTS[2], 2)] if tier == 'quick' else combos):
+                        yield ['exact', name, L, qD, integ, [dt.real, dt.imag], steps, 'real']
 
 
 def run_exact_case(case, ctx):
-    _, name, L, qD, integ, dtp, steps = case
+    _, name, L, qD, integ, dtp, steps = case[:7]
+    skind = case[7] if len(case) > 7 else 'complex'
     dt = complex(dtp[0], dtp[1])
     H = ec.build_hamiltonian(name, L, ctx.rng(5))
     qd = [int(x) for x in H.qd]
     if not palette.exactness_predicate(qd, qD, twosite=(integ == 'two')):
         ctx.cls('layout_fails_exactness_predicate')
         raise OutOfDomain()
-    psi = ec.make_state(ctx.rng(0), qd, qD)
+    psi = ec.make_state(ctx.rng(0), qd, qD, skind)
+    ctx.cls('state_dtype:' + skind)
     v0 = dense.mps_to_vector(psi.A)
     n0 = np.linalg.norm(v0)
     if n0 < 1e-12:
@@ -177,7 +181,9 @@ def _rev_cases(tier):
                     seen.add(core.canon(qD))
                     combos = [(DTS[0], 1), (DTS[1], 2), (DTS[2], 1), (DTS[3], 3)] if tier == 'quick' else list(itertools.product(DTS, (1, 2, 3)))
                     for dt, steps in combos:
-                        yield ['reverse', name, L, qD, [dt.real, dt.imag], steps]
+                        yield ['reverse', name, L, qD, [dt.real, dt.imag], steps, 'complex']
+                    for dt, steps in ([(DTS[0], 1), (DTS[3], 2)] if tier == 'quick' else combos):
+                        yield ['reverse', name, L, qD, [dt.real, dt.imag], steps, 'real']
 
 
 def full_rank(v, d, L):
@@ -186,12 +192,14 @@ def full_rank(v, d, L):
 
 
 def run_rev_case(case, ctx):
-    _, name, L, qD, dtp, steps = case
+    _, name, L, qD, dtp, steps = case[:6]
+    skind = case[6] if len(case) > 6 else 'complex'
     dt = complex(dtp[0], dtp[1])
     H = ec.build_hamiltonian(name, L, ctx.rng(5))
     qd = [int(x) for x in H.qd]
     d = len(qd)
-    psi = ec.make_state(ctx.rng(0), qd, qD)
+    psi = ec.make_state(ctx.rng(0), qd, qD, skind)
+    ctx.cls('state_dtype:' + skind)
     v0 = dense.mps_to_vector(psi.A)
     n0 = np.linalg.norm(v0)
     if n0 < 1e-12:
